@@ -1,6 +1,7 @@
 package main
 
 import (
+	"sort"
 	"go/token"
 	"strings"
 
@@ -29,8 +30,26 @@ func (x *Exec) callAsserts(st *State, fr *Frame, key string, args []Value, names
 		return
 	}
 	short := shortName(key)
-	for callee, clauses := range c.CallAsserts {
+	for calleeK, clauses := range c.CallAsserts {
+		// "<callee>#<k>": only the k-th call site (in source order) of that callee in the unit
+		callee, ord := calleeK, 0
+		if i := strings.LastIndex(calleeK, "#"); i > 0 {
+			callee = calleeK[:i]
+			for _, ch := range calleeK[i+1:] {
+				if ch < '0' || ch > '9' {
+					ord = -1
+					break
+				}
+				ord = ord*10 + int(ch-'0')
+			}
+			if ord <= 0 {
+				callee, ord = calleeK, 0
+			}
+		}
 		if callee != short && callee != key && !strings.HasSuffix(key, "."+callee) && !strings.HasSuffix(short, "."+callee) {
+			continue
+		}
+		if ord > 0 && (fr.depth != 0 || x.callOrdinal(fr.fn, callee, pos) != ord) {
 			continue
 		}
 		env := x.frameEnv(st, fr, nil)
@@ -43,7 +62,7 @@ func (x *Exec) callAsserts(st *State, fr *Frame, key string, args []Value, names
 			env.names["$"+itoa(i)] = a
 		}
 		for _, cl := range clauses {
-			x.oblige(st, "callsite", callee+":"+cl.Label, env.evalBool(cl.E), pos)
+			x.oblige(st, "callsite", calleeK+":"+cl.Label, env.evalBool(cl.E), pos)
 		}
 	}
 }
@@ -84,4 +103,44 @@ func (x *Exec) autoInline(fr *Frame, fn *ssa.Function) bool {
 		}
 	}
 	return true
+}
+
+// callOrdinal: 1-based index, in source order, of the call at pos among the calls of
+// callee in fn (0 if not found).
+func (x *Exec) callOrdinal(fn *ssa.Function, callee string, pos token.Pos) int {
+	var ps []token.Pos
+	for _, b := range fn.Blocks {
+		for _, in := range b.Instrs {
+			var cc *ssa.CallCommon
+			switch c := in.(type) {
+			case *ssa.Call:
+				cc = c.Common()
+			case *ssa.Defer:
+				cc = c.Common()
+			case *ssa.Go:
+				cc = c.Common()
+			}
+			if cc == nil {
+				continue
+			}
+			key := ""
+			if cc.IsInvoke() {
+				key = ifaceMethodKey(cc.Value.Type(), cc.Method)
+			} else if f := cc.StaticCallee(); f != nil {
+				key = funcKey(f)
+			}
+			short := shortName(key)
+			if key == "" || !(callee == short || callee == key || strings.HasSuffix(key, "."+callee) || strings.HasSuffix(short, "."+callee)) {
+				continue
+			}
+			ps = append(ps, in.Pos())
+		}
+	}
+	sort.Slice(ps, func(i, j int) bool { return ps[i] < ps[j] })
+	for i, p := range ps {
+		if p == pos {
+			return i + 1
+		}
+	}
+	return 0
 }
